@@ -203,3 +203,33 @@ def run_check(prop, tier, seed, runner, level):
         traceback.print_exc()
         print("CHECKER-BROKEN property=%s: unexpected exception (above)" % prop, file=sys.stderr)
         return EXIT_BROKEN
+
+
+def generic_replay(prop, path, runner, level):
+    """Fallback `--replay`: the recorded obligation is re-decided by re-running the property's quick check on the current
+    tree (checks whose failing inputs are whole driver cases have no cheaper single-call replay). Exit 1 iff the same
+    obligation fails again."""
+    rec = json.load(open(path))
+    ob = rec.get("obligation")
+    print("replay of %s: re-running ./check %s and looking for obligation %s" % (os.path.basename(path), prop, ob))
+    print("recorded input: %s" % json.dumps(rec.get("input"))[:600])
+    ctx = Ctx(prop, "quick", 0, level)
+    saved = (globals()["EVIDENCE_DIR"], globals()["REPLAY_DIR"])
+    import tempfile
+
+    tmp = tempfile.mkdtemp(prefix="cvreplay-")
+    globals()["EVIDENCE_DIR"], globals()["REPLAY_DIR"] = tmp, tmp
+    try:
+        runner(ctx)
+    finally:
+        globals()["EVIDENCE_DIR"], globals()["REPLAY_DIR"] = saved
+        import shutil
+
+        shutil.rmtree(tmp, ignore_errors=True)
+    again = [v for v in ctx.violations if v.obligation == ob]
+    if again:
+        print("the obligation fails again: %s" % again[0].what[:400])
+        print("VIOLATION property=%s replay=%s" % (prop, path))
+        return EXIT_VIOLATION
+    print("the obligation holds on the current tree (%d other violation(s))" % len(ctx.violations))
+    return EXIT_OK
